@@ -189,4 +189,91 @@ theorem C08_skin_asymptotic (omg mu0 sigma r twopi : ℝ) (hs : 0 < sigma) (hr :
 /-! non-vacuity -/
 example : (1 : ℂ) ≠ 0 ∧ (2 : ℂ) ≠ 0 := ⟨one_ne_zero, two_ne_zero⟩
 
+/-! ### Laplace loads are the rational function of their coefficients -/
+
+/-- the loop of `Laplace_Load.impedance` accumulates `Σ_j b_j·m·s^j` and `Σ_j a_j·m·s^j` -/
+theorem laplaceLoop_sum (s : ℂ) (l : List (ℂ × ℂ)) (m u d : ℂ) :
+    laplaceLoop s l m u d
+      = (u + m * ((List.range l.length).map (fun j => (l.getD j (0, 0)).2 * s ^ j)).sum,
+         d + m * ((List.range l.length).map (fun j => (l.getD j (0, 0)).1 * s ^ j)).sum) := by
+  induction l generalizing m u d with
+  | nil => simp [laplaceLoop]
+  | cons x r ih =>
+    simp only [laplaceLoop, ih, List.length_cons, List.range_succ_eq_map, List.map_cons, List.sum_cons,
+      List.map_map, List.getD_cons_zero, pow_zero, mul_one]
+    have h1 : ∀ f : ℂ × ℂ → ℂ, (List.map ((fun j => f ((x :: r).getD j (0, 0)) * s ^ j) ∘ Nat.succ) (List.range r.length)).sum
+        = s * (List.map (fun j => f (r.getD j (0, 0)) * s ^ j) (List.range r.length)).sum := by
+      intro f
+      rw [← List.sum_map_mul_left]
+      congr 1
+      apply List.map_congr_left
+      intro j _
+      simp only [Function.comp, List.getD_cons_succ, pow_succ]
+      ring
+    rw [h1 (fun y => y.2), h1 (fun y => y.1)]
+    refine Prod.ext ?_ ?_ <;> simp only <;> ring
+
+/-- **a Laplace load is the ratio of its two polynomials in `s = jω`** (coefficient lists of any length, zero-padded
+to a common length as `Laplace_Load.__init__` does) -/
+theorem C08_laplace_is_ratio (a b : List ℂ) (w : ℂ) :
+    laplace a b w =
+      ((List.range (max a.length b.length)).map (fun j => b.getD j 0 * (Complex.I * w) ^ j)).sum /
+      ((List.range (max a.length b.length)).map (fun j => a.getD j 0 * (Complex.I * w) ^ j)).sum := by
+  have hpad : ∀ (l : List ℂ) (n j : Nat), l.length ≤ n → (pad l n).getD j 0 = l.getD j 0 := by
+    intro l n j _
+    unfold pad
+    simp only [List.getD_eq_getElem?_getD, List.getElem?_append, Nat.cast_zero]
+    by_cases hj : j < l.length
+    · simp [hj]
+    · have hj' : l.length ≤ j := Nat.le_of_not_lt hj
+      simp only [hj, if_false, List.getElem?_replicate]
+      rw [List.getElem?_eq_none_iff.mpr hj']
+      split <;> rfl
+  unfold laplace
+  simp only [laplaceLoop_sum, HasI.I, Nat.cast_zero, Nat.cast_one, zero_add, one_mul]
+  have hlen : ((pad a (max a.length b.length)).zip (pad b (max a.length b.length))).length = max a.length b.length := by
+    simp [pad, List.length_zip]
+  rw [hlen]
+  congr 1 <;>
+  · congr 1
+    apply List.map_congr_left
+    intro j hj
+    have hj' : j < max a.length b.length := by simpa using hj
+    congr 1
+    have hz : ((pad a (max a.length b.length)).zip (pad b (max a.length b.length))).getD j (0, 0)
+        = ((pad a (max a.length b.length)).getD j 0, (pad b (max a.length b.length)).getD j 0) := by
+      have ha : j < (pad a (max a.length b.length)).length := by simp [pad]; omega
+      have hb : j < (pad b (max a.length b.length)).length := by simp [pad]; omega
+      simp [List.getD_eq_getElem?_getD, List.getElem?_zip_eq_some, ha, hb, List.getElem?_eq_getElem]
+    rw [hz]
+    first
+      | exact hpad b _ j (le_max_right _ _)
+      | exact hpad a _ j (le_max_left _ _)
+
+/-! ### distributed loads -/
+
+/-- **a distributed load adds to each pulse the per-length impedance times the conductor length the pulse
+represents**: the sum over the halves of length × per-length value … -/
+theorem C08_distributed_sum (halves : List (Option ℂ × ℂ)) :
+    distImpedance halves = (halves.map distTerm).sum := by
+  unfold distImpedance
+  have : ∀ (x : ℂ), halves.foldl (fun x h => x + distTerm h) x = x + (halves.map distTerm).sum := by
+    induction halves with
+    | nil => intro x; simp
+    | cons h r ih =>
+      intro x
+      simp only [List.foldl_cons, List.map_cons, List.sum_cons, ih]
+      ring
+  have h0 := this 0
+  simp only [zero_add] at h0
+  simpa using h0
+
+/-- … for a pulse inside one wire (both halves on the same wire): per-length impedance × (l₁ + l₂); a half whose
+wire carries no load contributes nothing -/
+theorem C08_distributed (z l1 l2 : ℂ) :
+    distImpedance [(some z, l1), (some z, l2)] = (l1 + l2) * z ∧
+    distImpedance [(some z, l1), (none, l2)] = l1 * z ∧
+    distImpedance [(none, l1), (none, l2)] = (0 : ℂ) := by
+  refine ⟨?_, ?_, ?_⟩ <;> simp [distImpedance, distTerm] <;> ring
+
 end Pmn.Props.C08
